@@ -12,16 +12,17 @@ EXTENDS CodecSpec, TLC, Json, IOUtils
 
 Events == ndJsonDeserialize(IOEnv.TRACE)
 KnownKeys == ndJsonDeserialize(IOEnv.KNOWN)
-CodecKnown(e) == LET k == CodecKnownKey(e) IN
-                 IF k # "" /\ \E j \in 1..Len(KnownKeys) : KnownKeys[j].key = k THEN k ELSE ""
+Enabled(k) == \E j \in 1..Len(KnownKeys) : KnownKeys[j].key = k
+(* the event is explained by known findings that are ALL enabled *)
+CodecKnown(e) == LET ks == CodecKnownKeys(e) IN ks # {} /\ \A k \in ks : Enabled(k)
 VARIABLE l
 
 Init == l = 1
 Next == /\ l <= Len(Events)
         /\ LET e == Events[l] IN
              IF CodecAccept(e) THEN TRUE
-             ELSE /\ CodecKnown(e) # ""
-                  /\ PrintT(<<"@@", "KF", CodecKnown(e), e.i>>)
+             ELSE /\ CodecKnown(e)
+                  /\ \A k \in CodecKnownKeys(e) : PrintT(<<"@@", "KF", k, e.i>>)
         /\ l' = l + 1
 Spec == Init /\ [][Next]_l
 Reached == PrintT(<<"@@", "REACHED", TLCGet("stats").diameter - 1>>)
